@@ -90,12 +90,12 @@ fn machine_sets(lib: &[Gadget], first: &dyn Fn(&Gadget) -> bool, second: &dyn Fn
             v.push((vec![*j], vec![*i]));
         }
     }
-    if !q {
-        // triples on the client: a blocker, a second blocker and a bypass padder
-        let blk: Vec<u16> = a.iter().filter(|i| lib[**i as usize].kind == 'b').step_by(3).cloned().collect();
-        let pad: Vec<u16> = (0..lib.len() as u16).filter(|i| lib[*i as usize].kind == 'p').step_by(2).collect();
+    {
+        // triples on the client: a blocker, a second blocker and a padder
+        let blk: Vec<u16> = a.iter().filter(|i| lib[**i as usize].kind == 'b').step_by(if q { 5 } else { 3 }).cloned().collect();
+        let pad: Vec<u16> = (0..lib.len() as u16).filter(|i| lib[*i as usize].kind == 'p').step_by(if q { 3 } else { 2 }).collect();
         for x in &blk {
-            for y in blk.iter().step_by(2) {
+            for y in blk.iter().step_by(if q { 3 } else { 2 }) {
                 for z in &pad {
                     v.push((vec![*x, *y, *z], vec![]));
                 }
@@ -239,13 +239,13 @@ pub fn judge_c16(sys: &SimSys, stats: &mut Stats) -> JobOut {
     out.events = r.evs.len() as u64;
     out.out_hash = hash_evs(&r.evs);
     for (client, stream, n) in sides(sys, &r, stats) {
-        let (fired, v17, _) = monitors::c17(&stream, n);
+        let (fired, v17, _, pbb) = monitors::c17_ext(&stream, n);
         // judge only the prefix on which the replay binding is consistent
         let upto = v17.as_ref().map(|v| v.at).unwrap_or(stream.len());
         if v17.is_some() {
             stats.bump("runs_judged_on_a_prefix_only");
         }
-        let (v, st) = monitors::c16(&stream[..upto], &fired);
+        let (v, st) = monitors::c16(&stream[..upto], &fired, &pbb);
         stats.add("blocking_begins", st.begins);
         stats.add("blocking_ends", st.ends);
         stats.add("packets_sent_during_blocking", st.sent_during_block);
@@ -488,7 +488,7 @@ pub fn worker_c16(ctx: &WorkerCtx) -> WorkerOut {
     let sets = machine_sets(&sp.lib, &|g| g.kind == 'b', &|g| matches!(g.kind, 'b' | 'p' | 'r') || !q && g.kind == 'x', q);
     let mut jobs = product(&sp, &sets, &delays, &[0], &[true], &[0]);
     if q {
-        jobs = jobs.into_iter().enumerate().filter(|(i, j)| sp.traces[j.trace as usize].len() < 3 || i % 4 == 0).map(|x| x.1).collect();
+        jobs = jobs.into_iter().enumerate().filter(|(i, j)| sp.traces[j.trace as usize].len() < 3 || i % 2 == 0).map(|x| x.1).collect();
     }
     let b = bounds(&sp, jobs.len(), &delays);
     let res = run_jobs("C16", &jobs, &|j| sp.build(j), &judge_c16, ctx);
@@ -501,7 +501,7 @@ pub fn worker_c17(ctx: &WorkerCtx) -> WorkerOut {
     let sets = machine_sets(&sp.lib, &|g| matches!(g.kind, 'p' | 'b' | 'r' | 'c'), &|g| matches!(g.kind, 'p' | 'b' | 'r' | 'c' | 'x'), q);
     let mut jobs = product(&sp, &sets, &delays, &[0], &[true], &[0]);
     if q {
-        jobs = jobs.into_iter().enumerate().filter(|(i, j)| sp.traces[j.trace as usize].len() < 3 || i % 6 == 0).map(|x| x.1).collect();
+        jobs = jobs.into_iter().enumerate().filter(|(i, j)| sp.traces[j.trace as usize].len() < 3 || i % 2 == 0).map(|x| x.1).collect();
     }
     let b = bounds(&sp, jobs.len(), &delays);
     let res = run_jobs("C17", &jobs, &|j| sp.build(j), &judge_c17, ctx);
@@ -631,6 +631,23 @@ pub fn replay(v: &Value) -> Result<Option<String>, String> {
             _ => judge_c19(&sys, &mut st).viols,
         }
     };
+    // show the run: output events, and per side the actions the framework returned at each event
+    if let Ok(r) = run(&sys) {
+        println!("simulator output ({} events):", r.evs.len());
+        let cs = replay_side(&sys, &r, true).unwrap_or_default();
+        let ss = replay_side(&sys, &r, false).unwrap_or_default();
+        let (mut ci, mut si) = (0, 0);
+        for e in &r.evs {
+            let acts = if e.client {
+                ci += 1;
+                cs.get(ci - 1).map(|x| x.1.clone())
+            } else {
+                si += 1;
+                ss.get(si - 1).map(|x| x.1.clone())
+            };
+            println!("  {}   -> {:?}", ev_string(e), acts.unwrap_or_default());
+        }
+    }
     let a = run1();
     let b = run1();
     let sa: Vec<&String> = a.iter().map(|v| &v.sig).collect();
